@@ -28,6 +28,8 @@ from mxlpy.types import IntegrationFailure, Result
 if TYPE_CHECKING:
     from mxlpy.integrators import IntegratorProtocol, IntegratorType
     from mxlpy.model import Model
+    from collections.abc import Callable
+
     from mxlpy.types import ArrayLike
 
 _LOGGER = logging.getLogger(__name__)
@@ -112,22 +114,34 @@ class Simulator:
         jac_fn = None
         if self.use_jacobian:
             try:
-                _jac = to_symbolic_model(self.model).jacobian()
-                _jac_fn = lambdify(
-                    (
-                        "time",
-                        self.model.get_variable_names(),
-                        list(self.model.get_parameter_values()),
-                    ),
-                    _jac,
-                )
-                jac_fn = lambda t, x: _jac_fn(  # noqa: E731
-                    t,
-                    x,
-                    list(self.model.get_parameter_values().values()),
-                )
+
+                def _compile_jac() -> Callable:
+                    return lambdify(
+                        (
+                            "time",
+                            self.model.get_variable_names(),
+                            list(self.model.get_parameter_values()),
+                        ),
+                        to_symbolic_model(self.model).jacobian(),
+                    )
+
+                # Derived parameters enter the symbolic model as numbers, so the
+                # compiled Jacobian is only valid for the parameter values it was
+                # compiled with: compile again when they have changed
+                _compiled = {
+                    "values": tuple(self.model.get_parameter_values().values()),
+                    "fn": _compile_jac(),
+                }
+
+                def jac_fn(t: float, x: ArrayLike) -> ArrayLike:
+                    values = tuple(self.model.get_parameter_values().values())
+                    if values != _compiled["values"]:
+                        _compiled["fn"] = _compile_jac()
+                        _compiled["values"] = values
+                    return _compiled["fn"](t, x, list(values))
 
             except Exception as e:  # noqa: BLE001
+                jac_fn = None
                 _LOGGER.warning(str(e), stacklevel=2)
 
         y0 = self.y0
